@@ -9,6 +9,7 @@ import functools
 import sys
 
 COUNTERS = {}
+PURITY_ENABLED = True  # C06 turns this off for "save first, look afterwards" cases (a pre-save read can mask stale caches)
 FAILURES = []  # (monitor name, message) collected when raise_on_failure is False
 BACKEND = None
 
@@ -195,7 +196,7 @@ def install(raise_on_failure=False, snapshot_fn=None):
             depth = COUNTERS.get("_write_depth", 0)
             COUNTERS["_write_depth"] = depth + 1
             try:
-                if depth:
+                if depth or not PURITY_ENABLED:
                     return orig_write(self, file)  # nested (MetaModule project, sampler effect): outer call covers it
                 before = snapshot_fn(self)
                 r = orig_write(self, file)
